@@ -302,6 +302,10 @@ type LLValidator struct {
 	Kind   string `json:"kind"` // schema | param | header
 	Schema string `json:"schema"`
 	Path   string `json:"path,omitempty"`
+	// Faulty: the validator is built with a registry wrapper that can be told to panic at the k-th checker invocation of
+	// one of its calls (C11: a long-lived validator goes on being used after a panic unwound through it)
+	Faulty bool `json:"faulty,omitempty"`
+	reg    *faultRegistry
 	// built once per run
 	sv *validate.SchemaValidator
 	pv *validate.ParamValidator
@@ -567,6 +571,7 @@ func (env *Env) exec(op *Op) Outcome {
 	case KLLSchema:
 		ll := env.LL[op.LL]
 		d := must(decodeJSON(op.Data, op.UseNumber))
+		defer ll.arm(op, env)()
 		r := ll.sv.Validate(d)
 		withHash := !strings.Contains(ll.Schema, "$ref")
 		env.retain(op, func() string { return resultOutcomeH(r, true, withHash).Key() })
@@ -574,17 +579,33 @@ func (env *Env) exec(op *Op) Outcome {
 	case KLLParam:
 		ll := env.LL[op.LL]
 		v := must(op.TVal.Value())
+		defer ll.arm(op, env)()
 		r := ll.pv.Validate(v)
 		env.retain(op, func() string { return resultOutcome(r, false).Key() })
 		return resultOutcome(r, false)
 	case KLLHeader:
 		ll := env.LL[op.LL]
 		v := must(op.TVal.Value())
+		defer ll.arm(op, env)()
 		r := ll.hv.Validate(v)
 		env.retain(op, func() string { return resultOutcome(r, false).Key() })
 		return resultOutcome(r, false)
 	}
 	panic(inputError{fmt.Errorf("unknown op kind %q", op.Kind)})
+}
+
+// arm tells the registry of a faulty long-lived validator to panic at the k-th checker invocation of this call; the
+// returned function disarms it (also when the panic unwinds).
+func (ll *LLValidator) arm(op *Op, env *Env) func() {
+	if ll.reg == nil || op.Fault == nil {
+		return func() {}
+	}
+	ll.reg.calls, ll.reg.fired, ll.reg.panicAt = 0, false, 0
+	if op.Fault.Kind == "checker-panic" {
+		ll.reg.panicAt = op.Fault.K
+	}
+	env.LastReg = ll.reg
+	return func() { ll.reg.panicAt = 0 }
 }
 
 func allMsgs(r *validate.Result) []string {
@@ -612,26 +633,31 @@ func (env *Env) BuildLL(defs []*LLValidator, ctx *rt.OpCtx) (err error) {
 	}()
 	env.LL = nil
 	for _, d := range defs {
-		ll := &LLValidator{Kind: d.Kind, Schema: d.Schema, Path: d.Path}
+		ll := &LLValidator{Kind: d.Kind, Schema: d.Schema, Path: d.Path, Faulty: d.Faulty}
+		var reg strfmt.Registry = strfmt.Default
+		if d.Faulty {
+			ll.reg = &faultRegistry{Registry: strfmt.Default}
+			reg = ll.reg
+		}
 		switch d.Kind {
 		case "schema":
 			s, e := parseSchema(d.Schema)
 			if e != nil {
 				return e
 			}
-			ll.sv = validate.NewSchemaValidator(s, nil, d.Path, strfmt.Default)
+			ll.sv = validate.NewSchemaValidator(s, nil, d.Path, reg)
 		case "param":
 			p := new(spec.Parameter)
 			if e := json.Unmarshal([]byte(d.Schema), p); e != nil {
 				return e
 			}
-			ll.pv = validate.NewParamValidator(p, strfmt.Default)
+			ll.pv = validate.NewParamValidator(p, reg)
 		case "header":
 			h := new(spec.Header)
 			if e := json.Unmarshal([]byte(d.Schema), h); e != nil {
 				return e
 			}
-			ll.hv = validate.NewHeaderValidator(d.Path, h, strfmt.Default)
+			ll.hv = validate.NewHeaderValidator(d.Path, h, reg)
 		default:
 			return fmt.Errorf("unknown long-lived validator kind %q", d.Kind)
 		}
